@@ -321,6 +321,17 @@ def run(ctx):
                 ctx.spec_fail('%s|many-chunks' % name, '%s over %d rows with buffersize=%d differs from the default call (groups not in input order)' % (name, n, bs),
                               {'op': name, 'nrows': n, 'buffersize': bs})
 
+    # ---- operands that are sort views (also by a field whose name merely starts with the key's name)
+    util.view_operand_cases(etl, rng, ctx, [
+        ('aggregate(len)', 1, lambda t: etl.aggregate(t, 'x', len)), ('aggregate(list)', 1, lambda t: etl.aggregate(t, 'x', list, 'v')),
+        ('aggregate(multi)', 1, lambda t: etl.aggregate(t, 'x', OrderedDict([('n', len), ('vs', ('v', list))]))),
+        ('aggregate(compound)', 1, lambda t: etl.aggregate(t, ('x', 'xy'), len)),
+        ('groupselectmin', 1, lambda t: etl.groupselectmin(t, 'x', 'xy')), ('groupselectmax', 1, lambda t: etl.groupselectmax(t, 'x', 'v')),
+        ('groupselectfirst', 1, lambda t: etl.groupselectfirst(t, 'x')), ('groupselectlast', 1, lambda t: etl.groupselectlast(t, 'x')),
+        ('rowreduce', 1, lambda t: etl.rowreduce(t, 'x', lambda k, g: [k, len(list(g))], header=['x', 'n'])),
+        ('fold', 1, lambda t: etl.fold(t, 'x', lambda a, b: a + b, 'v')), ('mergeduplicates', 1, lambda t: etl.mergeduplicates(t, 'x')),
+        ('groupcountdistinctvalues', 1, lambda t: etl.groupcountdistinctvalues(t, 'x', 'v')),
+    ], 480 if ctx.thorough() else 120)
 
 def replay(d):
     print('replay case:', d.get('case'))
